@@ -1155,7 +1155,11 @@ def corruptions(case, rng, limit=None):
         if val is None:
             continue
         top = (1 << (8 * width)) - 1
-        for v in sorted({0, 1, val - 1, val + 1, top}):
+        cand = {0, 1, val - 1, val + 1, top}
+        for k in range(1, width):          # bump each higher byte alone: what a truncating cast (`as u8`, `as u16`) would hide
+            cand.add((val + (1 << (8 * k))) & top)
+            cand.add(val | (0x80 << (8 * k)))
+        for v in sorted(cand):
             if v == val or v < 0 or v > top:
                 continue
             b = bytearray(buf)
